@@ -146,6 +146,8 @@ pub enum Op {
     ExpFromBits(usize, Vec<usize>),
     Exp(usize, usize, usize),
     Hash(Vec<usize>),
+    /// inputs, number of outputs squeezed (hash_n_to_m_no_pad), index of the output kept
+    HashM(Vec<usize>, usize, usize),
     HashGet(usize, usize),
     HashOrNoop(Vec<usize>),
     /// leaf values, index bits (little endian), cap height, seed for the other leaves
@@ -370,6 +372,10 @@ impl Program {
             Hash(xs) => {
                 let inp: Vec<u64> = xs.iter().map(|i| v[*i].f()).collect();
                 v.push(Val::H(rm::hash_no_pad(&inp)))
+            }
+            HashM(xs, m, k) => {
+                let inp: Vec<u64> = xs.iter().map(|i| v[*i].f()).collect();
+                v.push(Val::F(rm::hash_n_to_m(&inp, *m)[*k]))
             }
             HashGet(h, i) => v.push(Val::F(v[*h].h()[*i])),
             HashOrNoop(xs) => {
@@ -631,6 +637,10 @@ impl Program {
                     let ts: Vec<Target> = xs.iter().map(|i| tv[*i].f()).collect();
                     tv.push(TV::H(b.hash_n_to_hash_no_pad::<PoseidonHash>(ts)))
                 }
+                HashM(xs, m, k) => {
+                    let ts: Vec<Target> = xs.iter().map(|i| tv[*i].f()).collect();
+                    tv.push(TV::F(b.hash_n_to_m_no_pad::<PoseidonHash>(ts, *m)[*k]))
+                }
                 HashGet(h, i) => tv.push(TV::F(tv[*h].h().elements[*i])),
                 HashOrNoop(xs) => {
                     let ts: Vec<Target> = xs.iter().map(|i| tv[*i].f()).collect();
@@ -755,6 +765,8 @@ struct Gen<'a> {
     prog: Program,
     vals: Vec<Val>,
     cfg: &'a CircuitConfig,
+    /// operands that already went through a bit decomposition / range assertion
+    checked: Vec<usize>,
 }
 
 impl<'a> Gen<'a> {
@@ -826,6 +838,18 @@ impl<'a> Gen<'a> {
         }
     }
     fn small(&mut self, bits: usize) -> usize {
+        // the same operand decomposed again with another width (wide then narrow, narrow then wide)
+        if !self.checked.is_empty() && self.r.chance(1, 3) {
+            let c = *self.r.pick(&self.checked.clone());
+            if matches!(self.vals[c], Val::F(x) if bits >= 64 || x >> bits == 0) {
+                return c;
+            }
+        }
+        let i = self.small_inner(bits);
+        self.checked.push(i);
+        i
+    }
+    fn small_inner(&mut self, bits: usize) -> usize {
         match self.pick_small(bits) {
             Some(i) if self.r.chance(3, 4) => i,
             _ => {
@@ -850,7 +874,11 @@ pub fn gen_program(r: &mut Rng, cfg: &CircuitConfig, fam: &Families, max_ops: us
             0 => Val::B(r.chance(1, 2)),
             1 if fam.ext => Val::E([r.felt_biased(), r.felt_biased()]),
             2 if fam.hash => Val::H([r.felt(), r.felt_biased(), r.felt(), r.felt()]),
-            3 | 4 => Val::F(r.below(1 << 16)),
+            3 => Val::F(r.below(1 << 16)),
+            4 => {
+                let w = *r.pick(&[1u32, 4, 8, 16]);
+                Val::F(r.below(1 << w))
+            }
             _ => Val::F(r.felt_biased()),
         });
     }
@@ -878,10 +906,43 @@ pub fn gen_program(r: &mut Rng, cfg: &CircuitConfig, fam: &Families, max_ops: us
                 let out = if dup_out && i > 0 && r.chance(1, 2) { t[r.usize(t.len())].1 } else { r.below(1 << 16) as u16 };
                 t.push((inp, out));
             }
+            // every third table holds a 16-bit program input among its inputs (lookups of a non-constant value)
+            if r.chance(1, 3) {
+                let small: Vec<u16> = inputs.iter().filter_map(|v| match v { Val::F(x) if *x < 1 << 16 => Some(*x as u16), _ => None }).collect();
+                if let Some(&v) = small.first() {
+                    if !t.iter().any(|(a, _)| *a == v) {
+                        let k = r.usize(t.len());
+                        t[k].0 = v;
+                    }
+                }
+            }
+            // arbitrary order of the entries
+            if r.chance(1, 2) {
+                r.shuffle(&mut t);
+            }
+            // a table that is a proper prefix / an extension of the previous one (two different tables sharing entries)
+            if let Some(prev) = tables.last() {
+                let prev: &Vec<(u16, u16)> = prev;
+                if prev.len() >= 2 && r.chance(1, 4) {
+                    if r.chance(1, 2) {
+                        t = prev[..r.range(1, prev.len() - 1)].to_vec();
+                    } else {
+                        let mut e = prev.clone();
+                        for (a, b) in t.iter() {
+                            if !e.iter().any(|(x, _)| x == a) && e.len() < prev.len() + slots {
+                                e.push((*a, *b));
+                            }
+                        }
+                        if e.len() > prev.len() {
+                            t = e;
+                        }
+                    }
+                }
+            }
             tables.push(t);
         }
     }
-    let mut g = Gen { r, prog: Program { inputs: inputs.clone(), ops: vec![], tables, outputs: vec![] }, vals: inputs, cfg };
+    let mut g = Gen { r, prog: Program { inputs: inputs.clone(), ops: vec![], tables, outputs: vec![] }, vals: inputs, cfg, checked: vec![] };
     let n_ops = g.r.range(3, max_ops.max(3));
     let exp_bits = ExponentiationGate::<F, D>::new_from_config(cfg).num_power_bits;
     let mut used_tables: Vec<bool> = vec![false; g.prog.tables.len()];
@@ -1072,8 +1133,16 @@ pub fn gen_program(r: &mut Rng, cfg: &CircuitConfig, fam: &Families, max_ops: us
                 }
             }
             6 if fam.hash => {
-                let k = g.r.below(3);
+                let k = g.r.below(4);
                 match k {
+                    3 => {
+                        // long outputs: more than one squeeze block
+                        let n = *g.r.pick(&[1usize, 3, 8, 9, 12]);
+                        let m = *g.r.pick(&[1usize, 4, 8, 9, 12, 16, 17, 20]);
+                        let xs = g.fs(n);
+                        let kk = if g.r.chance(1, 2) { m - 1 } else { g.r.usize(m) };
+                        g.push(Op::HashM(xs, m, kk));
+                    }
                     0 => {
                         let n = *g.r.pick(&[0usize, 1, 3, 4, 5, 7, 8, 9, 12, 16, 17]);
                         let xs = g.fs(n);
@@ -1111,6 +1180,15 @@ pub fn gen_program(r: &mut Rng, cfg: &CircuitConfig, fam: &Families, max_ops: us
                     1 => g.cfg.num_routed_wires / 2 + 1,
                     _ => g.r.range(1, 4),
                 };
+                // a program input that is an input of this table is looked up directly (no constant)
+                let n_in = g.prog.inputs.len();
+                let via_input: Vec<usize> = (0..n_in).filter(|i| matches!(g.vals[*i], Val::F(x) if g.prog.tables[t].iter().any(|(a, _)| *a as u64 == x))).collect();
+                if !via_input.is_empty() && g.r.chance(2, 3) {
+                    let x = *g.r.pick(&via_input);
+                    if g.push(Op::Lookup(t, x)) {
+                        used_tables[t] = true;
+                    }
+                }
                 for _ in 0..reps {
                     let entry = *g.r.pick(&g.prog.tables[t].clone());
                     g.push(Op::Const(entry.0 as u64));
